@@ -41,6 +41,12 @@ static inline uint64_t c09_seed(uint64_t hist, uint64_t h, uint64_t counter) {
 static inline uint64_t c09_word(uint64_t seed, size_t i) {
   uint64_t x = seed + (uint64_t(i) + 1) * 0x9E3779B97F4A7C15ULL;
   x ^= x >> 29; x *= 0xbf58476d1ce4e5b9ULL; x ^= x >> 32;
+  // no data byte equals a byte of the fill patterns (0xCC default, 0xA5/0xC3 custom): the range an operation overwrites
+  // with the fill pattern is then exactly the range of bytes that changed (harness `f <off> <len>` answers)
+  for (int k = 0; k < 8; k++) {
+    uint8_t b = uint8_t(x >> (8 * k));
+    if (b == 0xCC || b == 0xA5 || b == 0xC3) x ^= (uint64_t(0x10) << (8 * k));
+  }
   return x;
 }
 
